@@ -23,7 +23,13 @@ FINDINGS = {
     # witnesses are regression probes below and anything like them is an untagged violation.
     'shared': 'S6b-shared-term-objects',              # a SPLINE term object shared by two models is recompiled by the other model's fit
     'shared_overwrite': 'S6d-shared-term-overwritten',  # the same for factor / linear terms
+    # coef_ doubles as the PIRLS starting value: a fitted model refitted on other data can diverge where a fresh model fits
+    'warm_start': 'S6e-warm-start-diverges',
 }
+
+
+class HistoryEnds(Exception):
+    pass
 KINDS = {'s': 'KSpline', 'f': 'KFactor', 'l': 'KLinear'}
 NDATA = 3
 
@@ -223,7 +229,9 @@ class Hist(object):
         if r < 0.55:
             use_w = rng.random() < 0.5
             use_e = self.cls == 'PoissonGAM' and rng.random() < 0.5
-            quant = rng.choice([0.3, 0.4, 0.6, 0.7]) if (self.cls == 'ExpectileGAM' and rng.random() < 0.35) else None
+            # fit_quantile is "a fit on this data" only for an unfitted model: on a fitted one it starts from the existing fit (validates X
+            # against the old model, keeps it if its quantile ratio is already within tol) -- not used on fitted models here
+            quant = rng.choice([0.3, 0.4, 0.6, 0.7]) if (self.cls == 'ExpectileGAM' and not fitted and rng.random() < 0.6) else None
             if quant is not None:
                 call = lambda g, X, y, w, e: g.fit_quantile(X, y, quantile=quant, max_iter=8, tol=0.05, weights=w if use_w else None)
             elif self.cls == 'PoissonGAM':
@@ -232,7 +240,29 @@ class Hist(object):
                 call = lambda g, X, y, w, e: g.fit(X, y, weights=w if use_w else None)
             out = self.guarded('fit', m, d, call, query=False)
             if isinstance(out, Exception):
-                self.log.append('m%d.fit(data%d) raised %s' % (m, d, type(out).__name__))
+                self.log.append('m%d.fit(data%d%s%s) raised %s' % (m, d, ', weights' if use_w else '', ', exposure' if use_e else '',
+                                                                  type(out).__name__))
+                if fitted and type(out).__name__ == 'OptimizationError':
+                    # does a fresh model of the same class and settings fit this data?
+                    from pygam.terms import TermList
+                    ts = user_terms(model)
+                    fresh = new_model(self.cls, TermList(*[new_term(self.specs[self.tid(t)][0], self.specs[self.tid(t)][1], list(t.lam),
+                                                                    self.specs[self.tid(t)][3]) for t in ts]), like=model)
+                    X, y, w, e = self.xyw(d)
+                    try:
+                        with warnings_off():
+                            call(fresh, X, y, w, e)
+                        fresh_ok = True
+                    except Exception:
+                        fresh_ok = False
+                    self.res.count('refit diverged:%s:fresh %s' % (self.cls, 'fits' if fresh_ok else 'diverges too'))
+                    if fresh_ok:
+                        self.res.violations.append(dict(
+                            what='fit on data%d raised OptimizationError for a model fitted before, while a fresh model with the same settings '
+                                 'fits the same data (the old coef_ is the starting value)' % d, finding=FINDINGS['warm_start'],
+                            input=dict(cls=self.cls, history=list(self.log), model=m, data=d), observed=str(out)[:200],
+                            expected='the same outcome as a fresh model'))
+                    raise HistoryEnds()
                 raise RuntimeError('fit raised: %r' % out)
             self.fitdata[m] = d
             self.fitargs[m] = dict(w=use_w, e=use_e)
@@ -350,6 +380,9 @@ def history_cases(res, rng, count, data, targets=None, expo=None):
         try:
             for _ in range(nsteps):
                 h.step()
+        except HistoryEnds:
+            res.count('history_discarded:refit diverged')
+            continue
         except Exception as e:
             res.violations.append(dict(what='public call raised in a valid history', finding=None, input=dict(cls=cls, history=h.log),
                                        observed='%s: %s' % (type(e).__name__, e), expected='no exception'))
